@@ -67,7 +67,7 @@ pub enum F {
 }
 
 impl F {
-    fn build<P: Problem>(&self, script: &Arc<Mutex<Script>>) -> Box<dyn Condition<P>> {
+    pub fn build<P: Problem>(&self, script: &Arc<Mutex<Script>>) -> Box<dyn Condition<P>> {
         match self {
             F::Leaf(i) => Box::new(Operand { id: *i, script: script.clone() }),
             F::And(c, op) => {
@@ -126,6 +126,15 @@ impl F {
             F::Not(c, _) => Ok(!c.eval(ans)?),
         }
     }
+    /// structure without operand identities and without the construction route (operator vs constructor)
+    pub fn shape(&self) -> String {
+        match self {
+            F::Leaf(_) => "x".into(),
+            F::And(c, _) => format!("And({})", c.iter().map(|k| k.shape()).collect::<Vec<_>>().join(",")),
+            F::Or(c, _) => format!("Or({})", c.iter().map(|k| k.shape()).collect::<Vec<_>>().join(",")),
+            F::Not(c, _) => format!("Not({})", c.shape()),
+        }
+    }
     fn leaves(&self) -> usize {
         match self {
             F::Leaf(_) => 1,
@@ -157,7 +166,7 @@ impl F {
     }
 }
 
-fn formulas(depth: usize, arity: usize) -> Vec<F> {
+pub fn formulas(depth: usize, arity: usize) -> Vec<F> {
     let mut level: Vec<F> = vec![F::Leaf(0)];
     for _ in 0..depth {
         let mut next = vec![];
